@@ -40,25 +40,25 @@ CONV_FP = ["*.apply", "*.merge"] + READS + API_GEN
 MAP_AS = ["Map (any nesting) violates this property on the unchanged tree: known findings T1, T2, T3 (KNOWN_FINDINGS.json); for Map the check relies on the correspondence of the faithful model, the refutation witnesses and the monitors' known-finding classes"]
 
 PROPS = {
-    "C01": P(ALL_REPL, CONV_FP, quick=500, streams=("structured",),
+    "C01": P(ALL_REPL, CONV_FP, quick=1000, streams=("structured",),
              extra_as=["ops generated through the API, each replica editing through its own actor; causal delivery (duplicates allowed)"] + MAP_AS),
-    "C02": P([t for t in ALL_REPL if t != "list"], CONV_FP + ["*.reset"], quick=500, streams=("structured",),
+    "C02": P([t for t in ALL_REPL if t != "list"], CONV_FP + ["*.reset"], quick=1000, streams=("structured",),
              extra_as=["states reachable by replicas with distinct actors; LWWReg with unique markers"] + MAP_AS),
-    "C03": P([t for t in ALL_REPL if t not in ("list", "vclock")], CONV_FP + ["*.reset"], quick=500, streams=("structured",),
+    "C03": P([t for t in ALL_REPL if t not in ("list", "vclock")], CONV_FP + ["*.reset"], quick=1000, streams=("structured",),
              extra_as=["knowledge sets closed under per-actor order"] + MAP_AS),
     "C07": P(["orswot", "mvreg", "mapmv", "mapor", "mapmm"], READS + ["ctx.*"] + ["*.apply", "*.merge"], streams=("structured",),
              extra_as=["top-level replicas only; Map: structural facts for every state reachable by well-formed ops and merges, the 'exactly the surviving witnesses' clause for Map inherits the status of C05"]),
-    "C08": P(["orswot", "mvreg", "mapmv", "mapor", "mapmm", "gcounter", "pncounter", "gset", "glist", "merkle", "list"], CONV_FP + ["*.reset"], quick=500, streams=("structured",),
+    "C08": P(["orswot", "mvreg", "mapmv", "mapor", "mapmm", "gcounter", "pncounter", "gset", "glist", "merkle", "list"], CONV_FP + ["*.reset"], quick=1000, streams=("structured",),
              extra_as=["each actor's ops delivered in issue order, otherwise arbitrary"] + MAP_AS),
-    "C09": P(ALL_REPL, CONV_FP + ["*.reset"], quick=500, streams=("structured",), extra_as=MAP_AS),
-    "C16": P(["vclock", "orswot", "list", "merkle", "lww", "mapmv", "mapor", "mapmm"], ["*.validate_op", "*.apply"] + API_GEN, quick=600, streams=("structured", "malformed"), exact=["*.validate_op"],
+    "C09": P(ALL_REPL, CONV_FP + ["*.reset"], quick=1000, streams=("structured",), extra_as=MAP_AS),
+    "C16": P(["vclock", "orswot", "list", "merkle", "lww", "mapmv", "mapor", "mapmm"], ["*.validate_op", "*.apply"] + API_GEN, quick=1000, streams=("structured", "malformed"), exact=["*.validate_op"],
              extra_as=["Map::validate_op violates this property on the unchanged tree: known finding K1"]),
-    "C17": P(["orswot", "lww", "mapmv", "mapor", "mapmm"], ["*.validate_merge", "*.apply", "*.merge"] + API_GEN, quick=600, streams=("structured", "malformed"), exact=["*.validate_merge"],
+    "C17": P(["orswot", "lww", "mapmv", "mapor", "mapmm"], ["*.validate_merge", "*.apply", "*.merge"] + API_GEN, quick=1000, streams=("structured", "malformed"), exact=["*.validate_merge"],
              extra_as=["Orswot::validate_merge rejects correct use of add_all: known finding K2"]),
-    "C19": P(ALL_REPL, ["serde", "serde.op"], quick=500, streams=("structured",), exact=["serde", "serde.op"],
+    "C19": P(ALL_REPL, ["serde", "serde.op"], quick=1000, streams=("structured",), exact=["serde", "serde.op"],
              extra_tb=["serde derive + serde_json modelled by coq/model/Serde.v (JSON tree; integer map keys abstracted as KNum; 32-byte hashes as one number); tied to the real crates by comparing real serde_json output with enc/dec on every sampled state"],
              extra_as=["REFUTED for states holding a pending remove (K3)", "u64 ranges not modelled"]),
-    "C20": P(ALL_REPL, CONV_FP + ["*.reset", "mvreg.eq"], quick=500, streams=("structured",), extra_as=MAP_AS),
+    "C20": P(ALL_REPL, CONV_FP + ["*.reset", "mvreg.eq"], quick=1000, streams=("structured",), extra_as=MAP_AS),
     "C04": P(["orswot"], ["orswot.apply", "orswot.merge", "orswot.validate_op"] + ["orswot." + r[2:] for r in READS] + ["orswot.add", "orswot.add_all", "orswot.rm", "orswot.rm_all", "ctx.*"],
              extra_as=["each actor's adds are delivered in issue order (the documented contract); removes in any order",
                        "ops are generated through the public API from reads of the generating replica"]),
